@@ -1,11 +1,12 @@
 /-!
 # Model of the files a search keeps in its `log_dir` (property C15)
 
-Code modelled (as it is AFTER the three `fix:` commits of branch `fix-g11`):
+Code modelled (as it is AFTER the `fix:` commits of branches `fix-g11` and `fix-g11b`):
 
 * `Search.__init__` (`hpo/_search.py`): if `results.csv` exists it is renamed to
   `results_<YYYYmmdd-HHMMSS>.csv`; while that name is taken a counter suffix `_1`, `_2`, …
-  is tried (`os.path.exists` loop), then `os.rename`.
+  is tried (`os.path.exists` loop), then `os.rename`; the evaluator's dump state
+  (`_start_dumping`, `_columns_dumped`) is reset, also for an evaluator that served another search.
 * `Evaluator._write_rows_to_csv` (`evaluator/_evaluator.py`), called by
   `dump_jobs_done_to_csv` after every gather: the FIRST dump of a search writes header + rows to
   `results.csv.tmp` (`open(…, "w")`), renames a `results.csv` that exists at that moment (written by
@@ -115,6 +116,15 @@ def extendAll (c : Content) : Content := c.map Line.extend
 
 def rowsFor (js : List Job) : List Line := js.map (fun j => Line.row j false)
 
+/-- what is left of a line when the `write(2)` that carries it is cut short inside it -/
+def Line.tear : Line → Line
+  | .row j _ => .torn j
+  | .torn j => .torn j
+  | .header _ => .torn ⟨0, 0⟩
+
+/-- a torn `write(2)`: the lines before `l` arrive, `l` arrives incomplete, the rest not at all -/
+def tornPayload (a : List Line) (l : Line) : List Line := a ++ [l.tear]
+
 /-- a complete data row that fits under a header with flag `e` (not more cells than the header) -/
 def rowOk (e : Bool) : Line → Bool
   | .row _ e' => !e' || e
@@ -138,6 +148,13 @@ def visibleOk (res : Option Content) (done dumped : List Job) : Bool :=
   match res with
   | none => dumped.isEmpty
   | some c => wellFormedPrefix c done dumped
+
+/-- what a torn append may leave at worst: a good table followed by ONE incomplete line of a
+finished job -/
+def tornLastOnly (c : Content) (done dumped : List Job) : Bool :=
+  match c.reverse with
+  | .torn j :: r => done.contains j && wellFormedPrefix r.reverse done dumped
+  | _ => false
 
 /-! ## model of what `CBO.fit_surrogate(path)` needs from the file
 (`pd.read_csv` + `filter_failed_objectives` + column selection) -/
@@ -184,7 +201,9 @@ def chunk : List Nat → List Line → List (List Line)
 /-- events of a run: system calls and ghost events (history variables) -/
 inductive Ev
   | sys (op : Op)
-  | created                 -- ghost: a new search object (new process / new evaluator) starts
+  | created                 -- ghost: a new search object starts, its evaluator's dump state is fresh
+  | reused                  -- ghost (pinned code only): a new search object starts with an evaluator
+                            -- that keeps its `_start_dumping` flag from the previous search
   | done (j : Job)          -- ghost: the run-function of `j` returned
   | dumped (js : List Job)  -- ghost: `dump_jobs_done_to_csv` returned, rows of `js` handed to the OS
   deriving DecidableEq, Repr
@@ -199,6 +218,7 @@ structure St where
 def exec (s : St) : Ev → St
   | .sys op => { s with fs := step s.fs op }
   | .created => { s with started := false, dumped := [] }
+  | .reused => { s with dumped := [] }
   | .done j => { s with done := s.done ++ [j] }
   | .dumped js => { s with started := true, dumped := s.dumped ++ js }
 
@@ -221,14 +241,16 @@ structure Cfg where
   atomicRewrite : Bool     -- 10a: Pareto rewrite through results.csv.tmp + os.replace
   atomicCreate : Bool      -- 10c: first dump through results.csv.tmp + os.replace
   keepForeign : Bool       -- 10d: first dump renames a results.csv written by another search
+  resetAlways : Bool       -- 10e: Search.__init__ always resets the evaluator's dump state
   deriving Repr, DecidableEq
 
-def fixed : Cfg := ⟨true, true, true, true⟩
-def pinned : Cfg := ⟨false, false, false, false⟩
+def fixed : Cfg := ⟨true, true, true, true, true⟩
+def pinned : Cfg := ⟨false, false, false, false, false⟩
 
 /-- what the program does between two crash-relevant points -/
 inductive Act
   | create (stamp : String)                      -- `Search.__init__` (`time.strftime` gave `stamp`)
+  | recreate (stamp : String)                    -- `Search.__init__` given the evaluator of the previous search
   | resume                                       -- a search object that was constructed earlier, when
                                                  -- the directory held no results.csv, starts to act
   | finish (j : Job)                             -- the run-function of `j` returns
@@ -243,6 +265,12 @@ def backupFor (cfg : Cfg) (fs : FS) (stamp : String) : Name :=
 def expand (cfg : Cfg) (s : St) : Act → List Ev
   | .create stamp =>
     .created ::
+      (match get s.fs .results with
+       | none => []
+       | some _ => [.sys (.rename .results (backupFor cfg s.fs stamp))])
+  | .recreate stamp =>
+    -- the pinned code resets `_start_dumping` only when it finds (and renames) a results.csv
+    (if cfg.resetAlways || (get s.fs .results).isSome then Ev.created else Ev.reused) ::
       (match get s.fs .results with
        | none => []
        | some _ => [.sys (.rename .results (backupFor cfg s.fs stamp))])
